@@ -7,7 +7,7 @@
    structural identity of the text that ignores every field q with [skip q] together with everything below it
    (Spec/DeqSpec.v); [field_compared], [tolerance_of] are the text's decision table and tolerance. *)
 From Coq Require Import List Bool String Ascii ZArith Arith Floats.SpecFloat.
-From Verif Require Import Util Ints Floats Node GoSrc Value Outcome Deq DeqSpec DeqKeys DeqPaths DeqSound DeqSym DeqRefl DeqMain
+From Verif Require Import Util Ints Floats Node GoSrc Value Outcome Deq DeqSpec DeqKeys DeqPaths DeqSound DeqSym DeqRefl DeqMain DeqForms
                           Shapes EnumVal GenUnits GenDeq GenC11.
 Import ListNotations.
 
@@ -96,6 +96,14 @@ Theorem C11_meets_demand : forall n o a b,
   meets (deep_equal_with_options n false (APtr (Some a)) (APtr (Some b)) o) (c11_demand (opts_spec o) n a b).
 Proof. exact deep_equal_meets_c11. Qed.
 Print Assumptions C11_meets_demand.
+
+(* ... in whatever form (T, *T, **T) either operand is handed over. *)
+Theorem C11_meets_demand_every_form : forall n o lf rf a b,
+  In lf value_forms -> In rf value_forms ->
+  wfroot n = true -> finv a = true -> kok a = true -> kok b = true ->
+  meets (deep_equal_with_options n false (arg_of_form lf a) (arg_of_form rf b) o) (c11_demand (opts_spec o) n a b).
+Proof. exact deep_equal_meets_c11_forms. Qed.
+Print Assumptions C11_meets_demand_every_form.
 
 (* The emitted code reads the options only through DEQMustCheck and the tolerance. *)
 Theorem C11_options_only_through_decision : forall sh o1 o2,
